@@ -140,18 +140,19 @@ PushSeg(D, R, s, x) ==
          ELSE {Good(s.w \o <<[id |-> D[p[1]].name, o |-> p[2]], x>>, s.ps, FALSE) : p \in c}
          : m \in R.cand}
 
-\* the walk sub (of one item) after the walk of s
-Splice(D, R, s, sub) ==
+\* the walk sub (of one item) after the walk of s; wr: the item is a nested path and
+\* the reading allows to splice it as a walk (its end segments count as listed)
+Splice(D, R, wr, s, sub) ==
   IF s.w = <<>> THEN {sub}
   ELSE
     LET last == s.w[Len(s.w)]
         first ==
           IF sub.ps
           THEN (IF last = sub.w[1] THEN {s} ELSE {Err("not-contiguous")})
-               \cup (IF R.walkrule /\ ~s.pe THEN PushSeg(D, R, s, sub.w[1]) ELSE {})
+               \cup (IF wr /\ ~s.pe THEN PushSeg(D, R, s, sub.w[1]) ELSE {})
           ELSE PushSeg(D, R, s, sub.w[1])
         ends == IF Len(sub.w) = 1 THEN {FALSE}
-                ELSE {sub.pe} \cup (IF R.walkrule THEN {FALSE} ELSE {}) IN
+                ELSE {sub.pe} \cup (IF wr THEN {FALSE} ELSE {}) IN
     UNION {IF ~t.ok THEN {t}
            ELSE IF Len(sub.w) = 1 THEN {t}
            ELSE {Good(t.w \o Tail(sub.w), t.ps, e) : e \in ends}
@@ -170,8 +171,9 @@ ItemOutcomes(D, R, x, stack) ==
 FoldItems(D, R, S, items, stack) ==
   IF items = <<>> THEN S
   ELSE LET subs == ItemOutcomes(D, R, Head(items), stack)
+           wr == R.walkrule /\ LineNamed(D, Head(items).id).rt = "O"
            S2 == UNION {IF ~s.ok THEN {s}
-                        ELSE UNION {IF ~sub.ok THEN {sub} ELSE Splice(D, R, s, sub) : sub \in subs}
+                        ELSE UNION {IF ~sub.ok THEN {sub} ELSE Splice(D, R, wr, s, sub) : sub \in subs}
                         : s \in S} IN
        FoldItems(D, R, S2, Tail(items), stack)
 WalksOf(D, R, items, stack) == FoldItems(D, R, {Good(<<>>, FALSE, FALSE)}, items, stack)
